@@ -255,7 +255,10 @@ class AtomicModel:
 
 
 class Interp:
-    def __init__(self, fn, ctx=None, loop_bound=2, atomic=None, pure=(), timeout_ms=20000, on_event=None, max_paths=4000):
+    def __init__(self, fn, ctx=None, loop_bound=2, atomic=None, pure=(), timeout_ms=20000, on_event=None, max_paths=4000,
+                 inline=None, slices=False):
+        self.inline = inline or {}     # callee name suffix -> Function (single-path callees are interpreted in place)
+        self.slices = slices           # model slice lengths / Range iteration (panic-freedom obligations)
         self.fn = fn
         self.ctx = ctx or Ctx()
         self.loop_bound = loop_bound
@@ -623,7 +626,7 @@ class Interp:
         c = self.ctx
         a0 = args[0] if args else None
         # --- identity on terms
-        if any(k in raw for k in (" as Deref>::deref", " as DerefMut>::deref_mut", " as AsRef<", " as Borrow<")) \
+        if any(k in raw for k in (" as Deref>::deref", " as DerefMut>::deref_mut", " as AsRef<", " as Borrow<", " as IntoIterator>::into_iter")) \
                 or name in ("Arc::as_ptr", "Arc::clone", "std::convert::identity"):
             return a0
         if raw.startswith("<Arc<") and raw.endswith(" as Clone>::clone"):
@@ -703,12 +706,91 @@ class Interp:
         if "std::sync::atomic::Atomic" in name:
             op = name.rsplit("::", 1)[1]
             return self.atomic_op(st, op, args, ret_sort)
+        # --- inlined single-path callees
+        for suf, callee_fn in self.inline.items():
+            if name.endswith(suf) or name == suf.lstrip(":"):
+                sub = Interp(callee_fn, ctx=c, loop_bound=1, pure=self.pure, slices=self.slices)
+                sub.solver = self.solver
+
+                def init(_it, sst, _args=args, _fn=callee_fn):
+                    for an, av in zip(_fn.args, _args):
+                        sst["env"][an] = av
+                rs = [r for r in sub.run(init) if r.status == "return"]
+                self.queries += sub.queries
+                if len(rs) != 1:
+                    raise MirError("inlined callee %s has %d return paths" % (suf, len(rs)))
+                for e in rs[0].events:
+                    e.pc = list(st["pc"] + st["pc_aux"]) + list(e.pc)
+                    st["events"].append(e)
+                st["pc_aux"] += [x for x in rs[0].pc]
+                return rs[0].ret
+        if self.slices:
+            r = self.slice_semantics(st, name, raw, args, ret_sort)
+            if r is not None:
+                return r
         # --- pure (deterministic) calls become uninterpreted functions
         if any(name.endswith(p) or name == p for p in self.pure):
             sorts = [(a.sort() if not isinstance(a, Tup) else U) for a in args]
             f = c.uf("fn:" + name, sorts, ret_sort)
             return f(*[(a if not isinstance(a, Tup) else c.fresh(U, "t")) for a in args])
         return c.fresh(ret_sort, name.rsplit("::", 1)[-1])
+
+    def len_of(self, v):
+        return self.ctx.uf("len", [U], z3.BitVecSort(64))(self.as_u(v))
+
+    def slice_semantics(self, st, name, raw, args, ret_sort):
+        c = self.ctx
+        # slicing: <[u8] as Index<Range..>>::index(base, range)  -> result with known length; logged for bounds obligations
+        m = re.search(r" as (?:std::ops::)?Index(?:Mut)?<(?:std::ops::)?(RangeTo|RangeFrom|Range|RangeInclusive)<usize>>>::index(?:_mut)?$", raw)
+        if m and isinstance(args[1], Tup):
+            kind = m.group(1)
+            r = c.fresh(U, "slice")
+            base_len = self.len_of(args[0])
+            f = args[1].fields
+            if kind == "Range":
+                start, end = f[0], f[1]
+            elif kind == "RangeTo":
+                start, end = z3.BitVecVal(0, 64), f[0]
+            elif kind == "RangeFrom":
+                start, end = f[0], base_len
+            else:
+                return None
+            st["pc_aux"].append(self.len_of(r) == end - start)
+            self.emit(st, Event("slice", kind, [args[0], start, end, base_len], list(st["pc"] + st["pc_aux"])))
+            return r
+        # for i in a..b  : one ARBITRARY iteration (start <= i < end) or exhaustion
+        if raw.endswith("Range<usize> as Iterator>::next") and isinstance(args[0], Tup):
+            o = c.fresh(U, "rnext")
+            p = c.uf("proj_Some_0", [U], z3.BitVecSort(64))(o)
+            start, end = args[0].fields[0], args[0].fields[1]
+            st["pc_aux"].append(z3.Or(c.disc(o) == 0, z3.And(c.disc(o) == 1, z3.UGE(p, start), z3.ULT(p, end))))
+            return o
+        if name.endswith("::windows") and len(args) == 2:
+            r = c.fresh(U, "windows")
+            c.tups[str(r)] = Tup([args[1]])
+            return r
+        if raw.endswith(" as Iterator>::next") and "Windows<" in raw:
+            o = c.fresh(U, "wnext")
+            p = c.uf("proj_Some_0", [U], U)(o)
+            t = c.tups.get(str(args[0]))
+            st["pc_aux"].append(z3.Or(c.disc(o) == 0, c.disc(o) == 1))
+            if t is not None:
+                st["pc_aux"].append(self.len_of(p) == t.fields[0])
+            return o
+        # <[u8; N] as TryFrom<&[u8]>>::try_from / TryInto::try_into: Ok iff len == N
+        m = re.search(r"Result::<\[u8; (\d+)\], (?:std::array::)?TryFromSliceError>::unwrap$", raw)
+        if m:
+            self.emit(st, Event("unwrap_array", m.group(1), [args[0]], list(st["pc"] + st["pc_aux"])))
+            return c.fresh(ret_sort, "arr")
+        m = re.search(r"as TryInto<\[u8; (\d+)\]>>::try_into$|as TryFrom<&\[u8\]>>::try_from$", raw)
+        if m:
+            n = m.group(1)
+            r = c.fresh(U, "tryinto")
+            if n:
+                st["pc_aux"].append((c.disc(r) == 0) == (self.len_of(args[0]) == z3.BitVecVal(int(n), 64)))
+                st["pc_aux"].append(z3.Or(c.disc(r) == 0, c.disc(r) == 1))
+            return r
+        return None
 
     def atomic_op(self, st, op, args, ret_sort):
         c = self.ctx
